@@ -2,8 +2,8 @@
    ONLY statements: each theorem is closed by `exact` of a lemma proved elsewhere and followed by Print Assumptions. *)
 From Coq Require Import ZArith NArith List Bool Lia Permutation FMapPositive.
 Import ListNotations.
-Require Import Base Strings Builtins Interp Machine Spec HeapFacts Refine1 Refine2 Refine3 Refine4 LinkStack Events Progress.
-
+Require Import Base Strings Builtins Interp Machine Spec HeapFacts Refine1 Refine2 Refine3 Refine4 LinkStack Events Progress RunG FuelMono Loops Float Num Arith Loops2.
+Open Scope Z_scope.
 (* every intermediate machine state has at most 1 + d frames, d the NON-TAIL demand depth of the big-step run (a tail-returned thunk costs nothing) *)
 Theorem machine_implements_spec fuel prog stdin h' w' r d :
   spec_main fuel prog stdin = Done h' w' r d ->
@@ -34,4 +34,42 @@ Theorem outcomes_exhaustive fuel prog stdin :
   match fst (run_main fuel prog stdin) with ODone _ | OErr _ | OLimit | OFuel => True | OStuck _ => False end.
 Proof. exact (Progress.outcomes_exhaustive fuel prog stdin). Qed.
 Print Assumptions outcomes_exhaustive.
+
+(* THE LOOP RULE: an invariant whose every link returns the next delayed call in tail position, after at most c frames of its own work, is evaluated within c frames - for ANY number of links *)
+Theorem tail_loop_rule (w:world) (c:nat) (Q:res -> Prop) (P:nat -> heap -> positive -> list positive -> Prop) :
+  (forall k h t ip, P (S k) h t ip ->
+     exists cl n0 h1 t' d0, get h t = Some cl
+       /\ run (bs n0) (t :: ip) h w (interpret (c_ast cl) (c_env cl)) = Done h1 w (inl (VThunk t')) d0
+       /\ (d0 <= c)%nat /\ uncached h1 t' /\ ~ In t' (t :: ip) /\ P k h1 t' (t :: ip)) ->
+  (forall h t ip, P 0%nat h t ip -> exists n h' r d, bs n ip h w (TThunk t) = Done h' w r d /\ (d <= c)%nat /\ Q r) ->
+  forall k h t ip, P k h t ip -> exists n h' r d, bs n ip h w (TThunk t) = Done h' w r d /\ (d <= c)%nat /\ Q r.
+Proof. exact (Loops.tail_loop_rule w c Q P). Qed.
+Print Assumptions tail_loop_rule.
+
+(* A CONCRETE LOOP, EVERY N: (fun n => (0 < n) selects [self (n + -1); 0]) N evaluates to 0 within 4 frames (symbolic execution of one iteration on an arbitrary heap + the loop rule) *)
+Theorem countdown_constant_depth (N:nat) (w:world) :
+  exists fuel h' d, bs fuel [] (fst (alloc heap0 (countdown (Z.of_nat N)) e0)) w (TThunk 1%positive) = Done h' w (inl (VInt 0)) d /\ (d <= 4)%nat.
+Proof. exact (Loops2.countdown_constant_depth N w). Qed.
+Print Assumptions countdown_constant_depth.
+
+(* main.main on that program prints 0 with demand depth <= 5, for every N *)
+Theorem countdown_main (N:nat) :
+  exists fuel h' w' d, spec_main fuel (countdown (Z.of_nat N)) [] = Done h' w' (inl (VStr [48%N])) d /\ (d <= 5)%nat.
+Proof. exact (Loops2.countdown_main N). Qed.
+Print Assumptions countdown_main.
+
+(* hence the trampolined machine runs it with at most 6 frames on its stack, for every N (machine_implements_spec) *)
+Theorem countdown_machine_frames (N:nat) :
+  exists d h' w' q', (d <= 5)%nat /\
+    reach (1 + d) (m_heap (init (countdown (Z.of_nat N)) [])) (PositiveMap.empty _) (m_stack (init (countdown (Z.of_nat N)) [])) (m_world (init (countdown (Z.of_nat N)) []))
+          h' q' [Fr None (retc (inl (VStr [48%N]))) []] w'.
+Proof. exact (Loops2.countdown_machine_frames N). Qed.
+Print Assumptions countdown_machine_frames.
+
+(* the same numbers by running the model (N = 0, 1, 7, 300): a test, not the theorem *)
+Theorem countdown_runs  :
+  map (fun N => match spec_main 2000 (countdown N) [] with Done _ _ r d => Some (r, d) | _ => None end) [0; 1; 7; 300]
+  = [Some (inl (VStr [48%N]), 4%nat); Some (inl (VStr [48%N]), 5%nat); Some (inl (VStr [48%N]), 5%nat); Some (inl (VStr [48%N]), 5%nat)].
+Proof. exact (Loops2.countdown_runs ). Qed.
+Print Assumptions countdown_runs.
 
